@@ -19,6 +19,7 @@ package accumulation
 //   P01.A3 (C01)  exactly one unchecked dereference in the program: if it can hit nil, a diagnostic is reported
 //                 on its line
 //   P01.A4 (C07)  nothing internal fails
+//   P01.A5 (C02)  every diagnostic sits on a line that holds an unchecked dereference (never on a nil-checked one)
 
 //verif:use zz_verif_pipe.go
 
@@ -219,6 +220,17 @@ func Harness_P01() {
 	g.emit("")
 	g.emit("func Entry() {")
 	g.emit("\tvar x, y *int")
+	if ndParam("BOOLVAL", 0) == 1 {
+		// a nil check of x inside a short-circuit expression that is used as a VALUE, not as a branch condition: it
+		// says nothing about what follows (NilAway used to apply the check's non-nil fact to everything downstream)
+		f, _ := g.flag()
+		if ndChoice("boolean_value", 2) == 0 {
+			g.emit("\tb := " + f + " && x != nil")
+		} else {
+			g.emit("\tb := " + f + " || x == nil")
+		}
+		g.emit("\t_ = b")
+	}
 	for k := 0; k < n; k++ {
 		g.stmt(compound)
 	}
@@ -272,6 +284,24 @@ func (g *p01Gen) judge(src string, calleeDeref, valLine int) {
 	if nUnchecked == 0 {
 		ndAssert("P01.A2.a_program_with_only_nil_checked_dereferences_is_not_reported"+g.class, !reported)
 	}
+	// C02 per line: a diagnostic may only sit on a line that holds an unchecked dereference
+	allowed := map[int]bool{}
+	for _, l := range g.unchecked {
+		allowed[l] = true
+	}
+	if calleeDeref > 0 {
+		allowed[calleeDeref] = true
+	}
+	if valLine > 0 {
+		allowed[valLine] = true
+	}
+	onlyThere := true
+	for l := range r.lines() {
+		if !allowed[l] {
+			onlyThere = false
+		}
+	}
+	ndAssert("P01.A5.no_diagnostic_on_a_line_without_an_unchecked_dereference"+g.class, onlyThere)
 	if nUnchecked == 1 {
 		lines := r.lines()
 		if calleeDeref > 0 {
